@@ -54,6 +54,19 @@ fn hist(kbx: &Sexp, ops: &[Sexp]) -> R<Sexp> {
                     slots[q] = Some((g, node));
                     Ok(L(vec![a("built"), gs, A(get_var_id().to_string())]))
                 },
+                "build-text" => {
+                    let q = q.ok_or("build-text: slot")?;
+                    let text = str_of_atom(ol[2].atom()?)?;
+                    let g = match parse_query(&text) {
+                        Ok(g) => Rc::new(g),
+                        Err(_) => return Ok(a("err")),
+                    };
+                    let node = make_base_node(Rc::clone(&g), &kb);
+                    while slots.len() <= q { slots.push(None); }
+                    let gs = sexp_of_goal(&g);
+                    slots[q] = Some((g, node));
+                    Ok(L(vec![a("built"), gs, A(get_var_id().to_string())]))
+                },
                 "ask" => {
                     let q = q.ok_or("ask: slot")?;
                     let (g, node) = slots.get(q).and_then(|x| x.as_ref()).ok_or("ask: empty slot")?;
@@ -96,7 +109,7 @@ fn hist(kbx: &Sexp, ops: &[Sexp]) -> R<Sexp> {
         // separator between the outputs of consecutive operations
         print!("\x03");
         match r {
-            Ok(Ok(o)) => obs.push(o),
+            Ok(Ok(o)) => { let stop = o == a("err"); obs.push(o); if stop { break; } },
             Ok(Err(e)) => return Err(e),
             Err(_) => { obs.push(a("panic")); break; },
         }
